@@ -3086,6 +3086,12 @@ def _parse_simple_lines(
             rows_value = _resolve_numeric_arg(rows_arg, 2)
             backlight_value = _resolve_optional_numeric_arg(backlight_arg)
             if interface == "i2c":
+                parallel_args = [rw_arg]
+                for pin_pos, pin_kw in enumerate(("rs", "en", "d4", "d5", "d6", "d7")):
+                    parallel_args.append(_extract_call_argument(args_src, keyword=pin_kw))
+                    parallel_args.append(_extract_call_argument(args_src, position=pin_pos))
+                if any(arg is not None and arg.strip() not in ("", "None") for arg in parallel_args):
+                    raise ValueError("LCD parallel pins are not supported in I2C mode")
                 i2c_value = _resolve_numeric_arg(i2c_arg, 0)
                 lcd_names.add(name)
                 vars[name] = _ExprStr(name)
